@@ -1,4 +1,5 @@
 import SafeC.Proofs.StpAll
+import SafeC.Proofs.FldSteps
 import SafeC.Props.C06
 /-!
 # C06 (extension 2) — `stpcpy_s` / `stpncpy_s`: success means the exact, complete result and the right pointer
@@ -199,5 +200,138 @@ example : RW sameSt 100 3 ∧ (∀ j, j < 2 → j < 3 → sameSt.data (100 + j) 
   · intro j hj _
     have : j = 0 ∨ j = 1 := by omega
     rcases this with h | h <;> subst h <;> decide
+
+/-! ## the field copies `strcpyfld_s`, `strcpyfldin_s`, `strcpyfldout_s`
+
+Same setting (everything readable, the `dmax` cells of dest writable, usable dest, `slen ≠ 0`, `src ≠ 0`); ANY placement,
+ANY `slen` (also above `dmax`), any contents, both slack configurations.  EOK EXACTLY when `slen ≤ dmax` and the cells
+read and the cells written do not meet; then dest holds exactly the copy the doc comment promises and the rest of the
+field is nulled (unconditionally: not a null-slack matter), no handler call, nothing outside dest changed.  On every other
+code `dest[0] = 0`.  False of the code: `strcpyfldout_s` with `slen = dmax` returns EOK having dropped the last character
+(`strcpyfldout-slen-eq-dmax`): `_partial` + `_witness`. -/
+
+/-- exact result of a successful field copy of `n` cells -/
+def FldExact (dest dmax src n : Nat) (st st' : St) : Prop :=
+  cells st' dest n = cells st src n ∧
+  (∀ i, n ≤ i → i < dmax → st'.data (dest + i) = 0) ∧
+  st'.events = st.events ∧ st'.strays = st.strays ∧
+  (∀ a, ¬ (dest ≤ a ∧ a < dest + dmax) → st'.data a = st.data a)
+
+theorem fldExact_of {dest dmax src n : Nat} {st st' : St} (h : FldOk dest dmax src n st st') (hn : n ≤ dmax) :
+    FldExact dest dmax src n st st' :=
+  ⟨cells_eq st st' dest src n h.copied, h.filled, h.1.events, h.1.strays, h.frame hn⟩
+
+/-- what every non-EOK return of the field copies looks like -/
+def FldFailed (cfg : Cfg) (dest dmax slen : Nat) (st st' : St) (code : Nat) : Prop :=
+  st'.data dest = 0 ∧ (code = ESOVRLP ∨ code = fldNospcCode slen) ∧
+  st'.events = st.events ++ [.handler .str code] ∧ st'.strays = st.strays ∧
+  (∀ a, ¬ (dest ≤ a ∧ a < dest + dmax) → st'.data a = st.data a) ∧
+  (code = ESOVRLP → cfg.slack = true → ∀ i, i < dmax → st'.data (dest + i) = 0)
+
+theorem fldFailed_of {kind : FldKind} {cfg : Cfg} {dest dmax src slen code : Nat} {st st' : St}
+    (hp : FldPost kind cfg dest dmax src slen st st' code) (hs : src ≠ 0) (hne : code ≠ EOK) :
+    FldFailed cfg dest dmax slen st st' code := by
+  refine ⟨hp.fail_first hne, ?_, hp.safe.fail_events hne, hp.safe.strays, hp.safe.frame,
+    fun h => hp.fail_clear (Or.inr h)⟩
+  rcases hp.codes with h | h | h | h
+  · exact absurd h hne
+  · by_cases hgt : dmax < slen
+    · exact Or.inr (hp.nospc hs hgt)
+    · rcases hp.fits hs (by omega) with h' | h'
+      · exact absurd h' hne
+      · exact Or.inl h'
+  · exact Or.inl h
+  · exact Or.inr h
+
+/-- **strcpyfld_s**: EOK exactly when `slen ≤ dmax` and the two `slen`-cell fields do not meet; then
+`dest[0..slen) = src[0..slen)` verbatim (NULs included) and `dest[slen..dmax) = 0` -/
+theorem strcpyfld_s_C06 (cfg : Cfg) (dest dmax src slen : Nat) (destbos : Bos) (st : St)
+    (hall : ∀ a, st.mapped a = true ∧ st.rd a = true) (hrw : RW st dest dmax)
+    (hd : dest ≠ 0) (hpos : 0 < dmax) (hle : dmax ≤ RSIZE_MAX_STR) (hbos : ∀ b, destbos = some b → dmax ≤ b)
+    (hsl : slen ≠ 0) (hs : src ≠ 0) :
+    ∃ code st', exec (strcpyfld_s cfg dest dmax src slen destbos) st = .ok (code, st') ∧
+      (code = EOK ↔ slen ≤ dmax ∧ (dest + slen ≤ src ∨ src + slen ≤ dest)) ∧
+      (code = EOK → FldExact dest dmax src slen st st') ∧
+      (code ≠ EOK → FldFailed cfg dest dmax slen st st' code) := by
+  unfold strcpyfld_s
+  rw [fldG_entry _ cfg dest dmax src slen destbos hsl hd hpos hle hbos]
+  obtain ⟨code, st', he, hp, h1, _, h3⟩ := fldBody_fld_all cfg dest dmax src slen st hall hrw hd hpos hle hs
+  exact ⟨code, st', he, h1, fun hc => fldExact_of (h3 hc) (h1.1 hc).1, fldFailed_of hp hs⟩
+
+/-- **strcpyfldin_s**: `n` = number of leading non-NUL source characters capped by `slen` (the copy stops at the
+terminator).  EOK exactly when `slen ≤ dmax` and the cells read (the `n` characters and, unless `slen` ran out, the
+terminator) and the `n` cells written do not meet; then `dest[0..n) = src[0..n)`, `dest[n..dmax) = 0` -/
+theorem strcpyfldin_s_C06 (cfg : Cfg) (dest dmax src slen n : Nat) (destbos : Bos) (st : St)
+    (hall : ∀ a, st.mapped a = true ∧ st.rd a = true) (hrw : RW st dest dmax)
+    (hd : dest ≠ 0) (hpos : 0 < dmax) (hle : dmax ≤ RSIZE_MAX_STR) (hbos : ∀ b, destbos = some b → dmax ≤ b)
+    (hsl : slen ≠ 0) (hs : src ≠ 0)
+    (hn : n ≤ slen) (hnz : ∀ j, j < n → st.data (src + j) ≠ 0) (hend : n = slen ∨ st.data (src + n) = 0) :
+    ∃ code st', exec (strcpyfldin_s cfg dest dmax src slen destbos) st = .ok (code, st') ∧
+      (code = EOK ↔ slen ≤ dmax ∧ (dest + n ≤ src ∨ src + n < dest ∨ (src + n = dest ∧ n = slen))) ∧
+      (code = EOK → FldExact dest dmax src n st st') ∧
+      (code ≠ EOK → FldFailed cfg dest dmax slen st st' code) := by
+  unfold strcpyfldin_s
+  rw [fldG_entry _ cfg dest dmax src slen destbos hsl hd hpos hle hbos]
+  obtain ⟨code, st', he, hp, h1, _, h3⟩ :=
+    fldBody_fldin_all cfg dest dmax src slen n st hall hrw hd hpos hle hs hn hnz hend
+  exact ⟨code, st', he, h1, fun hc => fldExact_of (h3 hc) (by have := (h1.1 hc).1; omega), fldFailed_of hp hs⟩
+
+/-- **strcpyfldout_s, what the code does for every `slen`**: EOK exactly when `slen ≤ dmax` and the
+`min slen (dmax-1)` cells read and written do not meet; then THAT many characters are copied, the rest nulled -/
+theorem strcpyfldout_s_C06_shape (cfg : Cfg) (dest dmax src slen : Nat) (destbos : Bos) (st : St)
+    (hall : ∀ a, st.mapped a = true ∧ st.rd a = true) (hrw : RW st dest dmax)
+    (hd : dest ≠ 0) (hpos : 0 < dmax) (hle : dmax ≤ RSIZE_MAX_STR) (hbos : ∀ b, destbos = some b → dmax ≤ b)
+    (hsl : slen ≠ 0) (hs : src ≠ 0) :
+    ∃ code st', exec (strcpyfldout_s cfg dest dmax src slen destbos) st = .ok (code, st') ∧
+      (code = EOK ↔ slen ≤ dmax ∧ (dest + min slen (dmax - 1) ≤ src ∨ src + min slen (dmax - 1) ≤ dest)) ∧
+      (code = EOK → FldExact dest dmax src (min slen (dmax - 1)) st st') ∧
+      (code ≠ EOK → FldFailed cfg dest dmax slen st st' code) := by
+  unfold strcpyfldout_s
+  rw [fldG_entry _ cfg dest dmax src slen destbos hsl hd hpos hle hbos]
+  obtain ⟨code, st', he, hp, h1, _, h3⟩ := fldBody_fldout_all cfg dest dmax src slen st hall hrw hd hpos hle hs
+  exact ⟨code, st', he, h1, fun hc => fldExact_of (h3 hc) (by omega), fldFailed_of hp hs⟩
+
+/- FULL statement (FALSE of the code for `slen = dmax`, see `strcpyfldout_s_C06_witness`): the same without `hlt`,
+   i.e. "EOK ⇒ all `slen` characters are in dest" / "EOK ⇔ `slen + 1 ≤ dmax` (characters and terminator fit) …". -/
+/-- **strcpyfldout_s**, `slen < dmax` (the `slen` characters AND the terminator fit): EOK exactly when the `slen` cells
+read and written do not meet; then all `slen` characters are copied verbatim, `dest[slen..dmax) = 0` -/
+theorem strcpyfldout_s_C06_partial (cfg : Cfg) (dest dmax src slen : Nat) (destbos : Bos) (st : St)
+    (hall : ∀ a, st.mapped a = true ∧ st.rd a = true) (hrw : RW st dest dmax)
+    (hd : dest ≠ 0) (hpos : 0 < dmax) (hle : dmax ≤ RSIZE_MAX_STR) (hbos : ∀ b, destbos = some b → dmax ≤ b)
+    (hsl : slen ≠ 0) (hs : src ≠ 0) (hlt : slen < dmax) :
+    ∃ code st', exec (strcpyfldout_s cfg dest dmax src slen destbos) st = .ok (code, st') ∧
+      (code = EOK ↔ (dest + slen ≤ src ∨ src + slen ≤ dest)) ∧
+      (code = EOK → FldExact dest dmax src slen st st') ∧
+      (code ≠ EOK → FldFailed cfg dest dmax slen st st' code) := by
+  obtain ⟨code, st', he, h1, h2, h3⟩ :=
+    strcpyfldout_s_C06_shape cfg dest dmax src slen destbos st hall hrw hd hpos hle hbos hsl hs
+  have e : min slen (dmax - 1) = slen := by omega
+  rw [e] at h1 h2
+  exact ⟨code, st', he, ⟨fun hc => (h1.1 hc).2, fun h => h1.2 ⟨by omega, h⟩⟩, h2, h3⟩
+
+/-- dest = 2 writable cells at 100 holding 7 7, src = "ab" at 200 -/
+def fldoutSt : St :=
+  { data := fun a => if a = 100 ∨ a = 101 then 7 else if a = 200 then 97 else if a = 201 then 98 else 0
+    mapped := fun _ => true, rd := fun _ => true
+    wr := fun a => decide (100 ≤ a ∧ a < 102) }
+
+/-- the excluded point: `strcpyfldout_s(d, 2, "ab", 2)` — `slen = dmax`, allowed by the entry check `slen ≤ dmax` —
+returns EOK with `d = "a"`: the second character is silently dropped (**listed**: `strcpyfldout-slen-eq-dmax`) -/
+theorem strcpyfldout_s_C06_witness :
+    ∃ st', exec (strcpyfldout_s {} 100 2 200 2 none) fldoutSt = .ok (EOK, st') ∧
+      st'.data 100 = 97 ∧ st'.data 101 = 0 ∧ fldoutSt.data 201 = 98 := by
+  refine ⟨(fldoutSt.upd 100 97).upd 101 0, ?_, ?_⟩
+  · simp [strcpyfldout_s, fldG, chkDmax, chkSlenNospcClear, RSIZE_MAX_STR, fldLoop,
+      nullSlack, zeroLoop, exec_bind, fldoutSt, EOK, St.upd]
+  · simp [St.upd, fldoutSt]
+
+/-- non-vacuity of the field-copy theorems: `fldoutSt` with `dmax = 2`, `slen = 1`, `n = 1` -/
+example : (∀ a, fldoutSt.mapped a = true ∧ fldoutSt.rd a = true) ∧ RW fldoutSt 100 2 ∧ (1 : Nat) ≠ 0 ∧ (1 : Nat) < 2 ∧
+    (∀ j, j < 1 → fldoutSt.data (200 + j) ≠ 0) ∧ ((1 : Nat) = 1 ∨ fldoutSt.data (200 + 1) = 0) := by
+  refine ⟨fun _ => ⟨rfl, rfl⟩, fun i hi => ⟨rfl, ?_, rfl⟩, by decide, by decide, ?_, Or.inl rfl⟩
+  · simp [fldoutSt]; omega
+  · intro j hj
+    have : j = 0 := by omega
+    subst this; decide
 
 end SafeC.Props.C06
